@@ -7,7 +7,7 @@ repo = Repo()
 W = core.make_world(repo)
 only = set(sys.argv[1:]) or None
 t0=time.time()
-for v in c01_simplifier.variants(W, only):
+for v in c01_simplifier.variants(W, only=only):
     r = run_variant(repo, W, v, deadline_s=120)
     st = {}
     for o in r['obligations']:
